@@ -183,6 +183,8 @@ class Engine:
                 st.assume(goal)     # already refuted on another path: one counterexample is enough
                 return
         verdict, backend, ms, info = solve.prove(st.pc, goal)
+        if os.environ.get('PYVC_TRACE'):
+            print('TRACE %-50s %-9s %7.0fms pc=%d last-line=%s' % (name, verdict, ms, len(st.pc), getattr(st, 'last_line', '?')), flush=True)
         model = None
         if verdict == 'refuted':
             model = self.model_to_json(info, st)
@@ -557,7 +559,17 @@ class Engine:
                 raise OutOfSubset('spec: unknown name %s' % node.id, node)
             return v
         if isinstance(node, ast.BoolOp):
-            vals = [self.truthy(self.sev(v, env)) for v in node.values]
+            vals = []
+            for v in node.values:
+                b = self.truthy(self.sev(v, env))
+                vals.append(b)
+                # short-circuit on a literal decision (e.g. `is_none(x) or f(some(x))` when x is
+                # statically None on this path): the remaining operands need not be well-typed
+                sb = z3.simplify(b)
+                if isinstance(node.op, ast.Or) and z3.is_true(sb):
+                    return mk_bool(True)
+                if isinstance(node.op, ast.And) and z3.is_false(sb):
+                    return mk_bool(False)
             return mk_bool(z3.And(*vals) if isinstance(node.op, ast.And) else z3.Or(*vals))
         if isinstance(node, ast.UnaryOp):
             if isinstance(node.op, ast.Not):
@@ -634,6 +646,8 @@ class Engine:
                 return self.sev(node.args[0], SpecEnv(env.old, env.extra, env.old))
             if name == 'implies':
                 a = self.truthy(self.sev(node.args[0], env))
+                if z3.is_false(z3.simplify(a)):
+                    return mk_bool(True)
                 b = self.truthy(self.sev(node.args[1], env))
                 return mk_bool(z3.Implies(a, b))
             if name == 'iff':
@@ -655,12 +669,21 @@ class Engine:
                 env2 = SpecEnv(st, extra, env.old)
                 rng = []
                 rest = node.args[1:]
+                marked = []
                 for k, b in enumerate(bound):
                     if len(rest) >= 2 * k + 2:
                         lo = self.sev(rest[2 * k], env2).e
                         hi = self.sev(rest[2 * k + 1], env2).e
                         rng.append(z3.And(lo <= b, b < hi))
-                body = self.truthy(self.sev(lam.body, env2))
+                        slo = z3.simplify(lo)
+                        if z3.is_int_value(slo) and slo.as_long() >= 0:
+                            marked.append(b)
+                saved_nn = getattr(self, 'nonneg_bound', None)
+                self.nonneg_bound = list(saved_nn or []) + marked
+                try:
+                    body = self.truthy(self.sev(lam.body, env2))
+                finally:
+                    self.nonneg_bound = saved_nn
                 guard = z3.And(*rng) if rng else z3.BoolVal(True)
                 if name == 'forall':
                     return mk_bool(z3.ForAll(bound, z3.Implies(guard, body)))
@@ -952,7 +975,21 @@ class Engine:
         raise OutOfSubset('in on %s' % container.t)
 
     def norm_index(self, n, i):
+        if self.known_nonneg(i):
+            return i       # keeps `arr[i]` as the quantifier trigger instead of arr[If(i < 0, ...)]
         return z3.If(i < 0, i + n, i)
+
+    def known_nonneg(self, i):
+        nn = getattr(self, 'nonneg_bound', None)
+        if z3.is_int_value(i):
+            return i.as_long() >= 0
+        if not nn:
+            return False
+        if z3.is_const(i):
+            return any(i.eq(b) for b in nn)
+        if z3.is_add(i):
+            return all(self.known_nonneg(c) for c in i.children())
+        return False
 
     def index(self, st, base, idx, line, node=None):
         """base[idx]; with `line` set an in-range obligation is generated."""
